@@ -434,10 +434,11 @@ func (rd *reader) waitCount(n int, d time.Duration) bool {
 	}
 }
 
-const (
-	grace     = 1 * time.Second  // how long a merely slow goroutine is given before the stall rule is consulted
-	hardLimit = 20 * time.Second // beyond this the case is left to the watchdog (inconclusive)
-)
+const grace = 1 * time.Second // how long a merely slow goroutine is given before the stall rule is consulted
+
+// hardLimit: beyond this a wait that the stall rule cannot decide makes the
+// case inconclusive.  (A variable: the 65 537-packet run needs more.)
+var hardLimit = 20 * time.Second
 
 func isReadFrame(fn string) bool { return strings.HasPrefix(fn, "ibb.(*Conn).Read") }
 
@@ -702,6 +703,13 @@ func runStream(c *core.Case, tc *transferCase, k int, p *libPair, disp map[strin
 				sessionDied(c, p, k, sp, "while the closing side was reading")
 				return
 			default:
+			}
+			// Were the bytes put on the wire at all?  If not this is loss at the
+			// sender, not a reader that missed its wake-up.
+			_, wire, _ := checkSeq(tap(ends[other].conn.Written()).Data, sid)
+			if len(wire) < need {
+				c.Violate("ibb:loss:sender", "stream %d (%s, block %d, partition %s): the %s side wrote and flushed %d bytes, only %d are in the data packets it sent", k, sp.Carrier, sp.Block, sp.Dir[other].Part, sideName[other], len(data[other]), len(wire))
+				return
 			}
 			if !parkedReader("the %s side flushed %d bytes and every packet was handled by the peer's serve loop, but the reader has %d", sideName[other], len(data[other]), rds[closer].count()) {
 				if !rds[closer].waitCount(need, hardLimit) {
